@@ -7,5 +7,5 @@ CONSTANTS
   ForgedKinds <- AllKinds
   MaxForged = 3
   MaxDup = 2
-INVARIANTS Emit TypeOK HistoryClean TransitionSound ConsumedClean EqualKeys KeyFromOperating MisbehavedIsExcluded OperatingNeverFail IntrudersNeverJoin IntruderFailsAtRoundThree
+INVARIANTS Emit EmitProbes TypeOK HistoryClean TransitionSound ConsumedClean EqualKeys KeyFromOperating MisbehavedIsExcluded OperatingNeverFail IntrudersNeverJoin IntruderFailsAtRoundThree
 CONSTRAINT StopAfterEmit
